@@ -24,7 +24,7 @@ ASSUMPTIONS = [
     "float comparisons 1e-9 relative",
 ]
 
-TEMPS = [20.0, 40.0, 60.0, 60.0, 80.0, 100.0, 150.0, 200.0, 35.5, 99.99]
+TEMPS = [20.0, 40.0, 60.0, 60.0, 80.0, 100.0, 150.0, 200.0, 35.5, 99.99, 0.0, 0.0, -15.0]  # 0.0 is a valid temperature, not a missing one
 
 
 def close(a, b, scale=1.0):
